@@ -319,24 +319,30 @@ func (s *verifStore2) HasByHeight(_ context.Context, h uint64) (bool, error) {
 // answered from the block and at the coordinates of ITS OWN request, whatever
 // the interleaving of the two handlers.
 //
-//verif:opts nopanic nodeadlock noreplay preempt=1 preempt_thorough=2 threads=16 cover=row,sample,both-served
+//verif:opts nopanic nodeadlock noreplay preempt=1 preempt_thorough=2 threads=16 cover=row,sample,range,both-served
 func VerifH_C09_ConcurrentRequestsKeepTheirOwnCoordinates() {
 	const width = 4
 	heights := [2]uint64{7, 8}
 	st := &verifStore2{accs: map[uint64]*verifAcc{7: {width: width}, 8: {width: width}}}
 	srv := &Server{store: st, params: DefaultServerParameters()}
-	kind := nd.Choice(2, "kind") // 0 row, 1 sample
-	reqIdx := 3
-	if kind == 1 {
-		reqIdx = 2
-	}
+	kind := nd.Choice(3, "kind") // 0 row, 1 sample, 2 share range
+	reqIdx := []int{3, 2, 4}[kind]
 	var rows, cols [2]int
 	var streams [2]*verifStream
 	for i := range streams {
 		rows[i], cols[i] = nd.Int("row"), nd.Int("col")
 		nd.Assume(rows[i] >= 0 && rows[i] < width && cols[i] >= 0 && cols[i] < width)
 		var raw []byte
-		if kind == 0 {
+		if kind == 2 { // rows[i] = from, cols[i] = to-from-1 (ODS of 2x2 shares)
+			nd.Assume(rows[i]+cols[i]+1 <= (width/2)*(width/2))
+			eid, err := shwap.NewEdsID(heights[i])
+			nd.Assume(err == nil)
+			id, err := shwap.NewRangeNamespaceDataID(eid, rows[i], rows[i]+cols[i]+1, width/2)
+			nd.Assume(err == nil)
+			raw, err = id.MarshalBinary()
+			nd.Assume(err == nil)
+			nd.Cover("range")
+		} else if kind == 0 {
 			id, err := shwap.NewRowID(heights[i], rows[i], width)
 			nd.Assume(err == nil)
 			raw, err = id.MarshalBinary()
@@ -373,6 +379,8 @@ func VerifH_C09_ConcurrentRequestsKeepTheirOwnCoordinates() {
 				nd.Assert(kind == 0 && acc.args[c][0] == int(rsmt2d.Row) && acc.args[c][1] == rows[i], "request-is-answered-at-its-own-coordinates")
 			case "Sample":
 				nd.Assert(kind == 1 && acc.args[c][0] == rows[i] && acc.args[c][1] == cols[i], "request-is-answered-at-its-own-coordinates")
+			case "RangeNamespaceData":
+				nd.Assert(kind == 2 && acc.args[c][0] == rows[i] && acc.args[c][1] == rows[i]+cols[i]+1, "request-is-answered-at-its-own-coordinates")
 			case "AxisRoots":
 			default:
 				nd.Assert(false, "request-is-answered-at-its-own-coordinates")
